@@ -1,4 +1,4 @@
-import SciVerif.Lemmas.C19i
+import SciVerif.Lemmas.C19j
 
 /-!
 # C19 — Exported configuration files carry the same values as the environment
@@ -234,6 +234,44 @@ example :
   decide +kernel
 
 /-! ## Bash -/
+
+/-- full statement: every Bash file (scalars, indexed arrays, associative arrays for rank >= 2) of
+    parameters with distinct exported names reads back as the expected symbols.  Proved below for
+    scalars and one-dimensional arrays (`…_partial`); what is missing is the associative-array form
+    (`declare -A N`, one `N[i,j]=v` line per element, `export N`), whose reader threads the symbol
+    table through the lines and needs the names to be distinct — covered by the correspondence. -/
+def C19_roundtrip_bash_statement : Prop :=
+  ∀ (exp ren : Bool) (data : List Param),
+    (∀ p ∈ data, (∀ ch ∈ rename ren p.name, bashNameChar ch = true) ∧ clean (rename ren p.name) = true ∧
+      ValOK p.kind p.value ∧ NoNL p.value ∧ ∃ sh, rectShape p.value = some sh ∧ 0 ∉ sh) →
+    (data.map (fun p => rename ren p.name)).Nodup →
+    (exportBash exp ren data).bind readBash = some (expectedBash exp ren data)
+
+/-- **Bash**: for every list of scalar and one-dimensional array parameters (every kind, every string
+    content without newline, any length) and both `export` settings, sourcing the exported file —
+    split into lines, every `[export ]NAME=word` / `NAME=("w1" "w2" …)` line read with quote removal —
+    gives exactly the expected variables: name, scalar / indexed attribute, export flag, subscripts
+    and values -/
+theorem C19_roundtrip_bash_partial (exp ren : Bool) (data : List Param) (hok : ∀ p ∈ data, ParamOKBash ren p) :
+    (exportBash exp ren data).bind readBash = some (expectedBash exp ren data) :=
+  readBash_exportBash exp ren data hok
+
+example : let data : List Param := [
+      ⟨cs!"sim.name", .str, 0, .leaf (.s (cs!"cost $HOME `x` \"q\" \\")), none, []⟩,
+      ⟨cs!"sizes", .float, 64, .arr [.leaf (.f (cs!"23.4")), .leaf (.f (cs!"1e-05"))], some (cs!"cm"), []⟩,
+      ⟨cs!"flags", .bool, 0, .arr [.leaf (.b true), .leaf (.b false)], none, []⟩]
+    (∀ p ∈ data, ParamOKBash true p) ∧ ((exportBash true true data).bind readBash).isSome = true := by
+  intro data
+  refine ⟨?_, by decide +kernel⟩
+  intro p hp
+  simp only [data, List.mem_cons, List.mem_nil_iff, or_false] at hp
+  rcases hp with rfl | rfl | rfl
+  · exact ⟨by decide, by decide, by simp [NoNL]; decide, Or.inl ⟨_, rfl, rfl⟩⟩
+  · exact ⟨by decide, by decide, by simp [NoNL, NoNLs],
+      Or.inr ⟨[.f (cs!"23.4"), .f (cs!"1e-05")], by simp, rfl, by
+        intro s hs; simp at hs; rcases hs with rfl | rfl <;> exact ⟨rfl, by decide, by decide⟩⟩⟩
+  · exact ⟨by decide, by decide, by simp [NoNL, NoNLs],
+      Or.inr ⟨[.b true, .b false], by simp, rfl, by intro s hs; simp at hs; rcases hs with rfl | rfl <;> rfl⟩⟩
 
 /-- every string value, escaped by the repaired `_parse_scalar` (`\\`, `"`, `$`, backquote get a
     backslash) and read by Bash as one double-quoted word, is unchanged -/
